@@ -91,13 +91,18 @@ PROPS = {
         "technique": "Verus contract on the extracted lexer state machine (Cursor::advance) over a ghost cursor model (unbounded) + Kani loop-free harnesses over every char for the lookup tables",
         "explanation": "Verus proves on the whole extracted state machine Cursor::advance / eof / done / unterminated_spread_operator, for every source text: each call hands out exactly the next "
                        "piece of the input (token text or error fragment; concatenated in order they reproduce the input), every item except EOF is non-empty (so lexing terminates), EOF "
-                       "only at the end, no cursor operation is used outside its precondition (eatc never with a pushed-back char, drain never on an empty source), and the loop terminates. "
+                       "only at the end, no cursor operation is used outside its precondition (eatc never with a pushed-back char, drain never on an empty source, the byte-range slices and "
+                       "the from_str_radix unwrap of the \\uXXXX check never panic), and the loop terminates. Every successfully returned Name / Int / Float / Comment / whitespace / punctuator / "
+                       "spread token has the right kind for its text under the October 2021 lexical grammar and is maximal (Name not followed by NameContinue; numbers not followed by "
+                       "Digit, `.` or NameStart; comment up to the line terminator). "
                        "Kani proves for every char value that the lookup tables (Punctuator kinds, NameStart) and the character classes equal the October 2021 tables; these are the contracts "
                        "the Verus unit assumes for lookup::*.",
         "assumptions": ["the ghost model of Cursor's primitives bump / eatc / current_str / prev_str / drain over CharIndices (lexer/cursor.rs; written from their bodies, not verified)",
-                        "one block of advance is dropped by a listed rewrite: the surrogate check of a completed \\uXXXX escape (byte-offset slicing; does not move the cursor)"],
-        "not_decided": ["that each token is the maximal-munch token OF THE RIGHT KIND of the lexical grammar (kinds and lookahead restrictions are not yet tied to a grammar spec)",
-                        "error reported iff the input is not a sequence of valid tokens", "byte offsets reported in Token::index / Error::index"],
+                        "`&self.source[a..b]` is rewritten to str_slice(self.source, a, b) whose precondition is 'a <= b, both char boundaries' (std semantics of str slicing, assumed)",
+                        "u32::from_str_radix(s, 16) is Ok for 1..=8 hex digits (std, assumed)"],
+        "not_decided": ["StringValue tokens: only `starts and ends with a quote` is proved, not the StringCharacter / BlockStringCharacter grammar",
+                        "the converse direction: an error is reported ONLY if the input is not a sequence of valid tokens (e.g. that `0123` MUST be an error is proved, that every error is justified is not)",
+                        "byte offsets reported in Token::index / Error::index", "the documented exception for braced / surrogate-pair escapes"],
     },
     "C21": {
         "level": "proof",
@@ -153,8 +158,10 @@ PROPS = {
         "level": "proof",
         "verus": ["parser_core"],
         "frame": ["grammar_uses_primitives_only"],
-        "explanation": "PARTIAL (end-of-input clause). Verus proves for parse_type and parse_selection_set: after the type / selection set, expect_end_of_input skips ignored tokens and "
-                       "the returned tree has no error only if the look-ahead token is None or EOF, i.e. nothing but ignored tokens was left; the tree reports exactly the parser's errors.",
+        "explanation": "PARTIAL. Verus proves for parse_type and parse_selection_set: after the type / selection set, expect_end_of_input skips ignored tokens and "
+                       "the returned tree has no error only if the look-ahead token is None or EOF, i.e. nothing but ignored tokens was left; for parse_type additionally that "
+                       "no error means a type was actually consumed (ty::parse returned Ok and added at least one significant token: a missing type is always reported); "
+                       "the tree reports exactly the parser's errors.",
         "assumptions": ['the assumed Lexer contract in the parser_core prelude (items carry the remaining text in order; a measure decreases per item; None only after the limit or at the end) -- C03, not proved', 'Name tokens produced by the lexer satisfy the Name grammar, so grammar::name::validate_name never reports (C03, not proved)', "the ~55 grammar functions that are not extracted keep the primitives' preconditions (they peek before they consume) and reach tokens only through the primitives (second half: frame check grammar_uses_primitives_only)", 'rowan GreenNodeBuilder: token() appends text, start/finish/wrap add none; Drop of NodeGuard has no spec', 'recursion limit < usize::MAX'],
         "not_decided": ["that the consumed tokens form exactly ONE type reference / selection set (needs a grammar-membership ghost; the selection grammar runs through closures)",
                         "leading tokens (the type entry point drops leading ignored tokens only)", "the compiler-side mapping syntax error => Err (apollo_compiler::parser::parse_type, parse_field_set)"],
